@@ -26,13 +26,18 @@ func main() {
 	known := flag.String("known", "", "known findings file")
 	lock := flag.String("lock", "", "obligations.lock file")
 	updateLock := flag.Bool("update-lock", false, "rewrite obligations.lock from this run")
+	verifDir := flag.String("verif", "/verif", "verification directory (known findings, replays)")
+	level := flag.String("level", "proof", "evidence level")
 	flag.Parse()
+	origPath = os.Getenv("PATH")
 	os.Setenv("PATH", "/opt/veriftools/go1.26.8/bin:"+os.Getenv("PATH"))
 	os.Setenv("GOTOOLCHAIN", "local")
 	os.Setenv("GOFLAGS", "-mod=mod")
 	os.Setenv("GOPROXY", "off")
 
 	t0 := time.Now()
+	knownList := parseKnown(*known)
+	preLoadKnown = knownList
 	L, err := Load(*repo, *tags)
 	if err != nil {
 		fmt.Fprintln(os.Stderr, "load error:", err)
@@ -40,9 +45,6 @@ func main() {
 	}
 	if *dump {
 		fmt.Println(L.Overlay)
-	}
-	for _, s := range L.Stale {
-		fmt.Fprintln(os.Stderr, "STALE:", s)
 	}
 	tmo := *timeout
 	if tmo == 0 {
@@ -84,10 +86,34 @@ func main() {
 		fmt.Sscanf(s, "%d", &seed)
 	}
 	verdicts := discharge(results, *workers, tmo, seed, *keep)
-	rep := &Report{L: L, Results: results, Verdicts: verdicts, Prop: *prop, Tier: *tier, Seed: seed, GenS: tgen.Seconds(), WallS: time.Since(t0).Seconds(),
-		Evidence: *evidence, ReplayDir: *replayDir, KnownFile: *known, LockFile: *lock, UpdateLock: *updateLock, Verbose: *verbose, TimeoutMs: tmo, Tags: *tags}
+	// retry undecided obligations that the lock records as discharged, with thorough limits
+	lockSet := readLock(*lock)
+	var retry []*FuncResult
+	retryIdx := map[*Obl]int{}
+	for i, v := range verdicts {
+		if v.Status == "undecided" && lockSet[lockKey(*tags, v.Obl.Name)] && tmo < 60000 {
+			for _, fr := range results {
+				if fr.Name == v.Func {
+					retry = append(retry, &FuncResult{Name: fr.Name, Spec: fr.Spec, VC: fr.VC, Obls: []*Obl{v.Obl}})
+					retryIdx[v.Obl] = i
+				}
+			}
+		}
+	}
+	if len(retry) > 0 {
+		for _, v := range discharge(retry, *workers, 60000, seed+1, *keep) {
+			v.TimeS += verdicts[retryIdx[v.Obl]].TimeS
+			verdicts[retryIdx[v.Obl]] = v
+		}
+	}
+	rep := &Report{L: L, Results: results, Verdicts: verdicts, Prop: *prop, Tier: *tier, Seed: seed, GenS: tgen.Seconds(), T0: t0,
+		Evidence: *evidence, ReplayDir: *replayDir, KnownFile: *known, Known: knownList, LockFile: *lock, UpdateLock: *updateLock, Verbose: *verbose,
+		TimeoutMs: tmo, Tags: *tags, FuncFilter: *fnre, VerifDir: *verifDir, Level: *level,
+		CheckerCmd: strings.Join(os.Args, " ")}
 	os.Exit(rep.Finish())
 }
+
+var preLoadKnown []*Known
 
 func contains(xs []string, x string) bool {
 	for _, y := range xs {
@@ -99,59 +125,28 @@ func contains(xs []string, x string) bool {
 }
 
 type Report struct {
-	L          *Loaded
-	Results    []*FuncResult
-	Verdicts   []*Verdict
-	Prop, Tier string
-	Seed       int
-	GenS       float64
-	WallS      float64
-	Evidence   string
-	ReplayDir  string
-	KnownFile  string
-	LockFile   string
-	UpdateLock bool
-	Verbose    bool
-	TimeoutMs  int
-	Tags       string
-}
-
-func (r *Report) Finish() int {
-	nd, nr, nu := 0, 0, 0
-	for _, v := range r.Verdicts {
-		switch v.Status {
-		case "discharged", "cover-ok":
-			nd++
-			if r.Verbose {
-				fmt.Printf("  ok        %-8s %5.2fs %s\n", v.Backend, v.TimeS, v.Obl.Name)
-			}
-		case "refuted":
-			nr++
-			fmt.Printf("  REFUTED   %-8s %5.2fs %s\n", v.Backend, v.TimeS, v.Obl.Name)
-			if r.Verbose {
-				fmt.Println(indent(truncate(v.Model, 3000)))
-			}
-		case "cover-fail":
-			nr++
-			fmt.Printf("  VACUOUS   %-8s %5.2fs %s\n", v.Backend, v.TimeS, v.Obl.Name)
-		default:
-			nu++
-			fmt.Printf("  UNDECIDED %-8s %5.2fs %s\n", "", v.TimeS, v.Obl.Name)
-			if r.Verbose {
-				fmt.Println(indent(truncate(v.Output, 1500)))
-			}
-		}
-	}
-	for _, fr := range r.Results {
-		if fr.Err != "" {
-			fmt.Printf("  UNSUPPORTED %s: %s\n", fr.Name, fr.Err)
-		}
-	}
-	fmt.Printf("functions=%d obligations=%d discharged=%d refuted=%d undecided=%d gen=%.1fs wall=%.1fs\n", len(r.Results), len(r.Verdicts), nd, nr, nu, r.GenS, r.WallS)
-	if nr > 0 {
-		return 1
-	}
-	return 0
+	L           *Loaded
+	Results     []*FuncResult
+	Verdicts    []*Verdict
+	Prop, Tier  string
+	Seed        int
+	GenS        float64
+	T0          time.Time
+	Evidence    string
+	ReplayDir   string
+	KnownFile   string
+	Known       []*Known
+	LockFile    string
+	UpdateLock  bool
+	Verbose     bool
+	TimeoutMs   int
+	Tags        string
+	FuncFilter  string
+	VerifDir    string
+	Level       string
+	CheckerCmd  string
+	Bounded     any
+	Explanation string
 }
 
 func indent(s string) string {
